@@ -385,6 +385,14 @@ def run(repo, chk):
         from . import c03
         from ..report import Remap
         c03.run(repo, Remap(chk, {'C03.J1': 'C16.E4', 'C03.J2': 'C16.E4', 'C03.J4': 'C16.E4'}))
+        # a loop the typechecker treats as never completing must be emitted with its back edge on every path,
+        # and `continue` (which is not an exit mode) must have a target inside the loop
+        chk.rule('C16.E7', 'loop template: body, continue label, [cont], back edge to the loop head on every path (shared with C08.L2)')
+        from . import c08
+
+        def loop_shape(construct):
+            return 'C16.E7' if construct.startswith('gen_block[LoopBlock]') else None
+        c08.run(repo, Remap(chk, {'C08.L2': loop_shape}))
     chk.exhaustive = True
     chk.sample({'loop_table': {c: sorted(nm(D.LoopBlock(None, D.stub(D.mk(['NONE', 'BREAK'])), cond,
                                D.CodeBlock((), None, False, EM.NONE)).exit_modes()))
